@@ -11,6 +11,7 @@ import (
 	"runtime/debug"
 	"strings"
 	"sync"
+	"sync/atomic"
 	"time"
 
 	"verifharness/lab"
@@ -298,6 +299,27 @@ func c18TCP(c *vk.Ctx, r *rand.Rand, catcher *panicCatcher) bool {
 		return false
 	}
 	c.Count("target_connections_all_closed_audits", 1)
+	// bursts of failing accepts (descriptor exhaustion during a flood): once accept works again,
+	// connections are served within the bound, however long the burst was
+	for i := 0; i < c.N(2, 6); i++ {
+		burst := int64(11 + r.Intn(12))
+		before := rig.acceptFaultsReturned.Load()
+		rig.acceptFaults.Store(burst)
+		// the accept call pending now is a real one: this connection ends it, the burst follows
+		if !tcpCanary(c, r, rig, hub, keys[0]) {
+			c.Violation("C18/tcp-service-affected-by-hostile-connection", map[string]any{"after": "arming accept failures"})
+			return false
+		}
+		t0 := time.Now()
+		served := tcpCanary1(c, r, rig, hub, keys[i%len(keys)])
+		if got := rig.acceptFaultsReturned.Load() - before; !served || got < burst {
+			c.Violation("C18/listener-stalls-after-a-burst-of-accept-failures", map[string]any{"consecutive_accept_failures_injected": burst, "returned_so_far": got, "error": "accept tcp: too many open files", "next_connection_served_within_10s": served, "waited": time.Since(t0).String()})
+			return false
+		}
+		c.Count("accept_failure_bursts_survived", 1)
+		c.Max("max_consecutive_accept_failures", burst)
+		c.Eval(fmt.Sprintf("tcp|accept-failure-burst|n=%s", sizeBucket(int(burst))))
+	}
 	// listener shutdown mid-handshake and mid-relay: StreamServe returns only after all handlers
 	var open []*SSClient
 	for i := 0; i < 6; i++ {
@@ -566,6 +588,57 @@ func c18UDP(c *vk.Ctx, r *rand.Rand, catcher *panicCatcher) bool {
 		}
 		cl.Close()
 	}
+	// --- a datagram of a known client is on its way to the target socket while the association
+	// expires (the packet loop has looked the entry up; the reaper removes it and closes its socket;
+	// the write then fails with "use of closed network connection"): one lost datagram, nothing more ---
+	for i := 0; i < c.N(3, 10); i++ {
+		var armed atomic.Bool
+		var straddled atomic.Int64
+		w.rig.Nat.SetOnNew(func(s *NatSock) {
+			if !armed.CompareAndSwap(true, false) {
+				return
+			}
+			writes := 0 // only the packet loop writes to this socket
+			s.FailWrite = func(dst net.Addr, n int) error {
+				writes++
+				if writes == 2 {
+					for dl := time.Now().Add(5 * time.Second); time.Now().Before(dl); time.Sleep(2 * time.Millisecond) {
+						if _, n := s.Closed(); n > 0 {
+							straddled.Add(1)
+							break
+						}
+					}
+				}
+				return nil
+			}
+		})
+		armed.Store(true)
+		k := keys[i%len(keys)]
+		cl, err := newUDPClient(net.IPv4(198, 51, 102, byte(1+i)).To4(), 0, k)
+		if err != nil {
+			w.rig.Nat.SetOnNew(nil)
+			continue
+		}
+		id := nextID(c.Batch)
+		cl.Send(ssUDP(k, randBytes(r, k.Codec().C.SaltSize), w.targets[0].addr(), mkUDPPayload(id, 0, 0, 20)), w.rig.Addr4())
+		_, ok1 := w.targets[0].waitID(id, udpB)
+		c.Progress("C18 udp write straddling expiry key=%s", k.Cipher)
+		cl.Send(ssUDP(k, randBytes(r, k.Codec().C.SaltSize), w.targets[0].addr(), mkUDPPayload(nextID(c.Batch), 0, 0, 20)), w.rig.Addr4())
+		for dl := time.Now().Add(6 * time.Second); ok1 && straddled.Load() == 0 && time.Now().Before(dl); {
+			time.Sleep(5 * time.Millisecond)
+		}
+		w.rig.Nat.SetOnNew(nil)
+		cl.Close()
+		if straddled.Load() == 0 {
+			c.Count("udp_expiry_straddles_not_reached", 1)
+			continue
+		}
+		c.Count("udp_writes_straddling_expiry", 1)
+		c.Eval("udp|client|write-on-association-expiring-meanwhile|" + k.Cipher)
+		if !check("datagram written while its association expired") {
+			return false
+		}
+	}
 	// --- many clients with expiring associations against concurrent lookups ---
 	stop := make(chan struct{})
 	var wg sync.WaitGroup
@@ -692,7 +765,7 @@ func init() {
 			return "", false
 		},
 		Run: func(c *vk.Ctx) {
-			for _, s := range []string{"tcp_hostile_cases_survived", "udp_hostile_cases_survived", "tcp_shutdown_orderings_checked", "udp_reply_cases_v4", "udp_reply_cases_v6", "udp_reply_cases_zoned-link-local", "leak_audits_passed", "close_right_after_accept_orderings_checked"} {
+			for _, s := range []string{"tcp_hostile_cases_survived", "udp_hostile_cases_survived", "tcp_shutdown_orderings_checked", "accept_failure_bursts_survived", "udp_writes_straddling_expiry", "udp_reply_cases_v4", "udp_reply_cases_v6", "udp_reply_cases_zoned-link-local", "leak_audits_passed", "close_right_after_accept_orderings_checked"} {
 				c.Require(s)
 			}
 			c18Run(c)
